@@ -190,6 +190,13 @@ package aper
 //@ requires bounds: (lowerBoundPtr == nil || (*lowerBoundPtr >= 0 && *lowerBoundPtr <= 65535)) && (upperBoundPtr == nil || *upperBoundPtr >= 0) && (lowerBoundPtr == nil || upperBoundPtr == nil || *lowerBoundPtr <= *upperBoundPtr)
 //@ ensures inv: vcInv(pd) && pd.byteOffset >= old(pd.byteOffset)
 //@ ensures alloc: len(result0.Bytes) <= len(pd.bytes)+8
+// Fixed sizes (X.691 16.9, 16.10), the mirror image of appendBitString's fixed16 / fixedn: at most 16
+// bits are read where the cursor stands, more after alignment; the cursor ends right after the bits.
+//@ let c0 := 8*pd.byteOffset+uint64(pd.bitsOffset)
+//@ let bo0 := pd.byteOffset
+//@ let bits0 := pd.bitsOffset
+//@ ensures fixed16: !(result1 == nil && !extensed && lowerBoundPtr != nil && upperBoundPtr != nil && *lowerBoundPtr == *upperBoundPtr && *upperBoundPtr >= 1 && *upperBoundPtr <= 16) || (8*pd.byteOffset+uint64(pd.bitsOffset) == c0+uint64(*upperBoundPtr) && result0.BitLength == uint64(*upperBoundPtr) && int64(len(result0.Bytes)) == (*upperBoundPtr+7)>>3 && vc.Forall(0, len(result0.Bytes), func(t int) bool { return result0.Bytes[t] == per.Extract(pd.bytes[bo0:], int(bits0), int(*upperBoundPtr), t) }))
+//@ ensures fixedn: !(result1 == nil && !extensed && lowerBoundPtr != nil && upperBoundPtr != nil && *lowerBoundPtr == *upperBoundPtr && *upperBoundPtr > 16 && *upperBoundPtr <= 65535) || (8*pd.byteOffset+uint64(pd.bitsOffset) == ((c0+7)>>3)*8+uint64(*upperBoundPtr) && result0.BitLength == uint64(*upperBoundPtr) && int64(len(result0.Bytes)) == (*upperBoundPtr+7)>>3 && vc.Forall(0, len(result0.Bytes), func(t int) bool { return result0.Bytes[t] == pd.bytes[(c0+7)>>3+uint64(t)] }))
 //@ assigns &pd.byteOffset, &pd.bitsOffset
 //@ loop 0 invariant inv (pd *perBitData, bitString BitString, old_pd perBitData): vcInv(pd) && pd.byteOffset >= old_pd.byteOffset && uint64(len(bitString.Bytes)) <= pd.byteOffset+1 && len(pd.bytes) == len(old_pd.bytes)
 
